@@ -8,6 +8,7 @@ import (
 	"go/token"
 	"go/types"
 	"sort"
+	"strconv"
 	"strings"
 
 	"golang.org/x/tools/go/ssa"
@@ -194,8 +195,30 @@ func (c *Ctx) path(v ssa.Value, env Env, d int) string {
 		}
 		return "(" + c.path(x.X, env, d+1) + " " + x.Op.String() + " " + c.path(x.Y, env, d+1) + ")"
 	case *ssa.Extract:
+		// v, err := asArrayOrError(x): a module helper that hands its argument back (type-asserted) on success
+		if x.Index == 0 {
+			if cl, ok := x.Tuple.(*ssa.Call); ok {
+				if g := cl.Call.StaticCallee(); g != nil && inModule(g) {
+					if pi := c.identityParam(g); pi >= 0 && pi < len(cl.Call.Args) {
+						return c.path(cl.Call.Args[pi], env, d+1)
+					}
+				}
+			}
+		}
+		if c.inlineHelpers {
+			if cl, ok := x.Tuple.(*ssa.Call); ok {
+				if p, ok2 := c.inlinedResult(cl, x.Index, env, d); ok2 {
+					return p
+				}
+			}
+		}
 		return c.path(x.Tuple, env, d) + fmt.Sprintf("#%d", x.Index)
 	case *ssa.Call:
+		if c.inlineHelpers {
+			if p, ok := c.inlinedResult(x, 0, env, d); ok && x.Call.Signature().Results().Len() == 1 {
+				return p
+			}
+		}
 		return c.callPath(&x.Call, env, d)
 	case *ssa.Phi:
 		if isInduction(x) {
@@ -1000,4 +1023,269 @@ func (c *Ctx) varargPaths(v ssa.Value, env Env) []string {
 		out = append(out, e.p)
 	}
 	return out
+}
+
+// identityParam: g returns (value, error) and on every may-succeed exit the value is one and the same parameter of g,
+// possibly type-asserted or converted to an interface — a checking helper that hands its argument back. Returns the
+// parameter index, -1 otherwise.
+func (c *Ctx) identityParam(g *ssa.Function) int {
+	if v, ok := c.identMemo[g]; ok {
+		return v
+	}
+	if c.identMemo == nil {
+		c.identMemo = map[*ssa.Function]int{}
+	}
+	c.identMemo[g] = -1
+	res := g.Signature.Results()
+	if g.Blocks == nil || res.Len() != 2 || !isErrType(res.At(1).Type()) {
+		return -1
+	}
+	pi := -1
+	n := 0
+	for _, r := range returnsOf(g) {
+		if !maySucceed(r) {
+			continue
+		}
+		n++
+		v := r.Results[0]
+		for d := 0; d < 4; d++ {
+			switch y := v.(type) {
+			case *ssa.TypeAssert:
+				v = y.X
+			case *ssa.Extract:
+				if ta, isTA := y.Tuple.(*ssa.TypeAssert); isTA && y.Index == 0 {
+					v = ta.X
+				}
+			case *ssa.MakeInterface:
+				v = y.X
+			case *ssa.ChangeType:
+				v = y.X
+			case *ssa.ChangeInterface:
+				v = y.X
+			}
+		}
+		p, isP := v.(*ssa.Parameter)
+		if !isP {
+			return -1
+		}
+		i := paramIndex(p)
+		if pi >= 0 && pi != i {
+			return -1
+		}
+		pi = i
+	}
+	if n == 0 {
+		return -1
+	}
+	c.identMemo[g] = pi
+	return pi
+}
+
+// inlinedResult (only while c.inlineHelpers is set): the call is to an unexported module helper with exactly one
+// may-succeed return; its result idx is rendered as the helper's own expression with parameters renamed to the
+// caller's arguments — `x := helper(a)` reads like the code the helper was extracted from.
+func (c *Ctx) inlinedResult(cl *ssa.Call, idx int, env Env, d int) (string, bool) {
+	g := cl.Call.StaticCallee()
+	if g == nil || !inModule(g) || g.Blocks == nil || d > 8 || g.Object() == nil || g.Object().Exported() || g.Signature.Recv() != nil {
+		return "", false
+	}
+	if _, leaf := termLeaves[g.String()]; leaf {
+		return "", false
+	}
+	srs := successReturns(g)
+	if len(srs) != 1 || idx >= len(srs[0].Results) {
+		return "", false
+	}
+	genv := c.calleeEnv(&cl.Call, g, env)
+	return c.path(srs[0].Results[idx], genv, d+2), true
+}
+
+// InlPath renders v with unexported single-exit helpers inlined.
+func (c *Ctx) InlPath(v ssa.Value, env Env) string {
+	old := c.inlineHelpers
+	c.inlineHelpers = true
+	defer func() { c.inlineHelpers = old }()
+	return c.path(v, env, 0)
+}
+
+// concatForm renders a string built by concatenation in a canonical flat form — parts joined by " ++ ", adjacent
+// constants merged — whatever the association of the + operators and whether it was written with + or with
+// fmt.Sprintf and a format made only of %s / %v verbs and literal text. Non-string values render as their path.
+func (c *Ctx) concatForm(v ssa.Value, env Env) string {
+	var parts []string // constants are kept quoted: `"…"`
+	var flat func(v ssa.Value, d int)
+	add := func(p string) {
+		if n := len(parts); n > 0 && strings.HasPrefix(p, `"`) && strings.HasPrefix(parts[n-1], `"`) {
+			parts[n-1] = parts[n-1][:len(parts[n-1])-1] + p[1:]
+			return
+		}
+		parts = append(parts, p)
+	}
+	flat = func(v ssa.Value, d int) {
+		if d > 10 {
+			add(c.Path(v, env))
+			return
+		}
+		if env != nil {
+			if s, ok := env[v]; ok {
+				add(s)
+				return
+			}
+		}
+		switch x := v.(type) {
+		case *ssa.MakeInterface:
+			flat(x.X, d+1)
+			return
+		case *ssa.ChangeType:
+			if isStringType(x.X.Type()) {
+				flat(x.X, d+1)
+				return
+			}
+		case *ssa.BinOp:
+			if x.Op == token.ADD && isStringType(x.Type()) {
+				flat(x.X, d+1)
+				flat(x.Y, d+1)
+				return
+			}
+		case *ssa.Const:
+			if x.Value != nil && x.Value.Kind() == constant.String {
+				if constant.StringVal(x.Value) != "" {
+					add(strconv.Quote(constant.StringVal(x.Value)))
+				}
+				return
+			}
+		case *ssa.Call:
+			if g := x.Call.StaticCallee(); g != nil && g.String() == "fmt.Sprintf" && len(x.Call.Args) == 2 {
+				if k, ok := x.Call.Args[0].(*ssa.Const); ok && k.Value != nil && k.Value.Kind() == constant.String {
+					if args, ok2 := c.varargValues(x.Call.Args[1]); ok2 {
+						format := constant.StringVal(k.Value)
+						var segs []string
+						okF := true
+						ai := 0
+						lit := ""
+						for i := 0; i < len(format); i++ {
+							if format[i] != '%' {
+								lit += string(format[i])
+								continue
+							}
+							if i+1 >= len(format) {
+								okF = false
+								break
+							}
+							i++
+							switch format[i] {
+							case '%':
+								lit += "%"
+							case 's', 'v':
+								if ai >= len(args) || !isStringType(args[ai].Type()) {
+									okF = false
+								}
+								if lit != "" {
+									segs = append(segs, strconv.Quote(lit))
+									lit = ""
+								}
+								segs = append(segs, fmt.Sprintf("\x00%d", ai))
+								ai++
+							default:
+								okF = false
+							}
+						}
+						if lit != "" {
+							segs = append(segs, strconv.Quote(lit))
+						}
+						if okF && ai == len(args) {
+							for _, sg := range segs {
+								if strings.HasPrefix(sg, "\x00") {
+									var idx int
+									fmt.Sscanf(sg[1:], "%d", &idx)
+									flat(args[idx], d+1)
+								} else {
+									add(sg)
+								}
+							}
+							return
+						}
+					}
+				}
+			}
+		case *ssa.Phi:
+			if !isInduction(x) {
+				set := map[string]bool{}
+				for i, e := range x.Edges {
+					if c.phiEdgeLive != nil && !c.phiEdgeLive(x, i) {
+						continue
+					}
+					set[c.concatForm(e, env)] = true
+				}
+				var alts []string
+				for s := range set {
+					alts = append(alts, s)
+				}
+				sort.Strings(alts)
+				if len(alts) == 1 {
+					add(alts[0])
+				} else {
+					add("phi(" + strings.Join(alts, "|") + ")")
+				}
+				return
+			}
+		}
+		add(c.Path(v, env))
+	}
+	flat(v, 0)
+	return strings.Join(parts, " ++ ")
+}
+
+func isStringType(t types.Type) bool {
+	b, ok := t.Underlying().(*types.Basic)
+	return ok && b.Info()&types.IsString != 0
+}
+
+// varargValues: the values stored into the variadic slice argument `new [n]any (varargs)`, unwrapped from their
+// interface conversion, in order.
+func (c *Ctx) varargValues(v ssa.Value) ([]ssa.Value, bool) {
+	if k, ok := v.(*ssa.Const); ok && k.IsNil() {
+		return nil, true
+	}
+	sl, ok := v.(*ssa.Slice)
+	if !ok {
+		return nil, false
+	}
+	al, ok := sl.X.(*ssa.Alloc)
+	if !ok {
+		return nil, false
+	}
+	arr, ok := al.Type().Underlying().(*types.Pointer).Elem().Underlying().(*types.Array)
+	if !ok {
+		return nil, false
+	}
+	out := make([]ssa.Value, arr.Len())
+	for _, r := range *al.Referrers() {
+		ia, isIA := r.(*ssa.IndexAddr)
+		if !isIA {
+			continue
+		}
+		kc, isK := ia.Index.(*ssa.Const)
+		if !isK {
+			return nil, false
+		}
+		i, _ := constant.Int64Val(kc.Value)
+		for _, rr := range *ia.Referrers() {
+			if st, isS := rr.(*ssa.Store); isS && st.Addr == ssa.Value(ia) {
+				val := st.Val
+				if mi, isMI := val.(*ssa.MakeInterface); isMI {
+					val = mi.X
+				}
+				if i >= 0 && int(i) < len(out) {
+					out[i] = val
+				}
+			}
+		}
+	}
+	for _, o := range out {
+		if o == nil {
+			return nil, false
+		}
+	}
+	return out, true
 }
